@@ -47,6 +47,99 @@ impl AdjacencyMatrix {
     @*/
 }
 
+//@file src/repr/adjacency_list/mod.rs
+impl AdjacencyList {
+    /// C15: exactly one arc between every pair of distinct vertices
+    spec fn tournament(&self) -> bool {
+        forall|a: int, b: int| #![trigger self.has(a, b)] 0 <= a < self.ord() && 0 <= b < self.ord() && a != b ==> self.has(a, b) != self.has(b, a)
+    }
+
+    /*@fn trait=Empty name=trivial file=src/gen/empty.rs dropwhere=Self
+    ensures
+        r.wf(),
+        r.ord() == 1,
+        forall|a: int, b: int| #![trigger r.has(a, b)] !r.has(a, b),
+    @*/
+
+    /*@fn impl=AdjacencyList trait=RandomTournament name=random_tournament
+    ensures
+        order >= 1,
+        r.wf(),
+        r.ord() == order,
+        r.tournament(),
+    @loop 1
+    invariant
+        order > 1,
+        arcs@.len() == order,
+        rows_wf(arcs@),
+        rows_tour_upto(arcs@, u as int, 0),
+    @loop 2
+    invariant
+        u < order,
+        arcs@.len() == order,
+        rows_wf(arcs@),
+        rows_tour_upto(arcs@, u as int, v as int),
+    @loop_start 2
+        let ghost a0 = arcs@;
+        let ghost mut na: (int, int) = (0, 0);
+        assert(u < v < order);
+    @after `let _ = unsafe { arcs.get_unchecked_mut(u).insert(v) };`
+        proof {
+            na = (u as int, v as int);
+            assert(arcs@.len() == a0.len() && arcs@[u as int]@ == a0[u as int]@.insert(v));
+            assert forall|a: int| 0 <= a < a0.len() && a != u implies #[trigger] arcs@[a] == a0[a] by {}
+            assert forall|a: int, b: int| #![trigger rows_has(arcs@, a, b)] rows_has(arcs@, a, b) == (rows_has(a0, a, b) || (a == u && b == v)) by {}
+        }
+    @after `let _ = unsafe { arcs.get_unchecked_mut(v).insert(u) };`
+        proof {
+            na = (v as int, u as int);
+            assert(arcs@.len() == a0.len() && arcs@[v as int]@ == a0[v as int]@.insert(u));
+            assert forall|a: int| 0 <= a < a0.len() && a != v implies #[trigger] arcs@[a] == a0[a] by {}
+            assert forall|a: int, b: int| #![trigger rows_has(arcs@, a, b)] rows_has(arcs@, a, b) == (rows_has(a0, a, b) || (a == v && b == u)) by {}
+        }
+    @loop_end 2
+        proof {
+            let a1 = arcs@;
+            assert(na == (u as int, v as int) || na == (v as int, u as int));
+            assert forall|a: int, b: int| #![trigger rows_has(a1, a, b)] rows_has(a1, a, b) == (rows_has(a0, a, b) || (a == na.0 && b == na.1)) by {}
+            assert forall|a: int, b: int| #![trigger rows_has(a1, a, b)] 0 <= a < b < a1.len() implies
+                (if decided(a, b, u as int, v + 1) { rows_has(a1, a, b) != rows_has(a1, b, a) } else { !rows_has(a1, a, b) && !rows_has(a1, b, a) }) by {
+                assert(rows_has(a0, a, b) == rows_has(a0, a, b) && rows_has(a0, b, a) == rows_has(a0, b, a));
+                assert(rows_has(a1, b, a) == rows_has(a1, b, a));
+            }
+        }
+    @fn_end
+        proof {
+            let g = AdjacencyList { arcs };
+            assert forall|a: int, b: int| #![trigger g.has(a, b)] g.has(a, b) == rows_has(arcs@, a, b) by {}
+            assert forall|a: int, b: int| #![trigger g.has(a, b)] 0 <= a < g.ord() && 0 <= b < g.ord() && a != b implies g.has(a, b) != g.has(b, a) by {
+                if a < b { assert(rows_has(arcs@, a, b) != rows_has(arcs@, b, a)); } else { assert(rows_has(arcs@, b, a) != rows_has(arcs@, a, b)); }
+            }
+        }
+    @*/
+}
+
+/// arc relation of a row vector under construction
+spec fn rows_has(rows: Seq<BTreeSet<usize>>, a: int, b: int) -> bool {
+    0 <= a < rows.len() && 0 <= b <= usize::MAX && rows[a]@.contains(b as usize)
+}
+
+/// every arc joins distinct vertices of V
+spec fn rows_wf(rows: Seq<BTreeSet<usize>>) -> bool {
+    forall|a: int, x: usize| 0 <= a < rows.len() && #[trigger] rows[a]@.contains(x) ==> x < rows.len() && x != a
+}
+
+/// loop state: decided pairs carry exactly one arc, undecided pairs none
+spec fn rows_tour_upto(rows: Seq<BTreeSet<usize>>, u: int, v: int) -> bool {
+    forall|a: int, b: int| #![trigger rows_has(rows, a, b)] 0 <= a < b < rows.len() ==>
+        if decided(a, b, u, v) { rows_has(rows, a, b) != rows_has(rows, b, a) } else { !rows_has(rows, a, b) && !rows_has(rows, b, a) }
+}
+
+// ---- EdgeList side (own module: one module-level `broadcast use` per module) ----
+mod edge_gen {
+use super::*;
+//@import units/inc/edge_list_core.inc.rs
+
 //@file src/repr/edge_list/mod.rs
 impl EdgeList {
     /// C15: exactly one arc between every pair of distinct vertices
@@ -97,3 +190,4 @@ impl EdgeList {
         }
     @*/
 }
+} // mod edge_gen
